@@ -55,7 +55,8 @@ PROBES = [
     "second_save_same_npz", "save_accumulate_save_load", "negative_sum_saved", "keyless_after_keyless",
     "overwrite_false_existing", "overwrite_true_existing", "preseeded_archive", "compressed", "raw_reload",
     "npy_reload", "npz_reload", "save_empty", "cross_accumulator_path", "suffix_text_in_directory",
-    "accumulate_on_loaded_instance", "save_with_warnings_as_errors",
+    "accumulate_on_loaded_instance", "save_with_warnings_as_errors", "save_empty_after_loading_zero_count",
+    "loaded_with_other_norm_var",
 ]
 FAULT_KINDS = ["prior_content_numpy_archive", "prior_content_compressed_archive", "prior_content_own_save",
                "prior_content_npy", "prior_content_raw"]
@@ -109,7 +110,7 @@ def generate(rng, tier, k):
             p = rng.randrange(len(PATHS))
             op = {"op": "save", "a": a, "p": p, "werr": rng.random() < 0.15}
             if _kind(p) == "npz":
-                op["key"] = rng.choice((None, None, "k1", "stats", "arr_0", "arr_1"))
+                op["key"] = rng.choice((None, None, None, "k1", "stats", "arr_0", "arr_1", "arr_10"))
                 op["compress"] = rng.random() < 0.35
                 op["overwrite"] = rng.choice((True, False, None))  # None = use the default
             ops.append(op)
@@ -118,16 +119,19 @@ def generate(rng, tier, k):
             cands = list(saved) or [rng.randrange(len(PATHS))]
             p = rng.choice(cands)
             ops.append({"op": "load", "p": p, "which": rng.choice(("last", "last", "any")), "pick": rng.randrange(1 << 16),
-                        "then_accumulate": rng.random() < 0.3})
+                        "then_accumulate": rng.random() < 0.3, "other_norm_var": rng.random() < 0.3})
         elif r < 0.9:
-            ops.append({"op": "save_empty", "p": rng.randrange(len(PATHS))})
+            ops.append({"op": "save_empty", "p": rng.randrange(len(PATHS)), "via_zero_count_file": rng.random() < 0.4})
         else:
             p = rng.randrange(len(PATHS))
             kind = _kind(p)
             if kind == "npz":
+                ent = rng.sample(["other", "arr_0", "arr_1", "arr_2", "k1", "zz"], rng.randrange(1, 4))
+                if rng.random() < 0.3:
+                    # a run of default keys plus a two-digit one (first unused arr_<n> is numeric, not lexicographic)
+                    ent = ["arr_%d" % i for i in range(rng.randrange(1, 5))] + ["arr_10"] + rng.sample(["arr_11", "zz"], 1)
                 ops.append({"op": "preseed", "p": p, "how": rng.choice(("savez", "savez", "savez_compressed")),
-                            "entries": rng.sample(["other", "arr_0", "arr_1", "arr_2", "k1", "zz"], rng.randrange(1, 4)),
-                            "seed": rng.randrange(1 << 30)})
+                            "entries": ent, "seed": rng.randrange(1 << 30)})
             elif kind == "npy":
                 ops.append({"op": "preseed", "p": p, "how": "npy", "seed": rng.randrange(1 << 30)})
             else:
@@ -183,8 +187,10 @@ def _run(scn, d, base, res, tr):
             os.makedirs(os.path.join(base, os.path.dirname(rel)), exist_ok=True)
     accs = []
     datas = []
+    sibs = []  # fed identically, but constructed with the OTHER norm_var: the saved file must serve both kinds of loader
     for a in scn["accs"]:
         accs.append(_post.Standardize(norm_var=bool(a.get("norm_var", True))))
+        sibs.append(_post.Standardize(norm_var=not bool(a.get("norm_var", True))))
         datas.append(model.make_data(a["data"]))
     nrows = [0] * len(accs)
     # directory model: p -> {"kind": "npy"|"npz"|"raw"|"foreign", "entries": {key: ("stats", fp, acc) | ("foreign", sha)}}
@@ -212,13 +218,14 @@ def _run(scn, d, base, res, tr):
             rows = rows.astype(op.get("dtype", "float64"))
             form = op.get("form", "md")
             try:
-                if form == "vec":
-                    for r in rows:
-                        accs[a].accumulate(r)
-                elif form == "dm":
-                    accs[a].accumulate(np.ascontiguousarray(rows.T), axis=0)
-                else:
-                    accs[a].accumulate(rows)
+                for inst_ in (accs[a], sibs[a]):
+                    if form == "vec":
+                        for r in rows:
+                            inst_.accumulate(r)
+                    elif form == "dm":
+                        inst_.accumulate(np.ascontiguousarray(rows.T), axis=0)
+                    else:
+                        inst_.accumulate(rows)
             except Exception as e:
                 fail("RAISES", "accumulate raised %s: %s" % (type(e).__name__, e), phase="accumulate")
                 return
@@ -257,6 +264,15 @@ def _run(scn, d, base, res, tr):
             existed = os.path.exists(path)
             before = open(path, "rb").read() if existed else None
             inst = _post.Standardize()
+            if op.get("via_zero_count_file"):
+                # an instance whose statistics were LOADED from a file that holds a zero count has accumulated nothing
+                res.probe("save_empty_after_loading_zero_count")
+                zp = os.path.join(base, "zero_count.npy")
+                np.save(zp, np.zeros((2, d + 1)))
+                try:
+                    inst = _post.Standardize(rfilename=zp)
+                except Exception:
+                    inst = _post.Standardize()
             res.probe("save_empty")
             try:
                 inst.save(path)
@@ -294,6 +310,10 @@ def _run(scn, d, base, res, tr):
                 fail("SAVE_EMPTY", "save with no accumulated statistics did not raise", phase="save_empty")
                 return
             fp, _ = _fingerprint(accs[a], d)
+            try:
+                fp_sib, _ = _fingerprint(sibs[a], d)
+            except Exception:
+                fp_sib = None
             if "/" in PATHS[p]:
                 res.probe("suffix_text_in_directory")
             kw = {}
@@ -358,7 +378,7 @@ def _run(scn, d, base, res, tr):
                 else:
                     key_used = key
                 kept = dict(kept)
-                kept[key_used] = ("stats", fp, a, bool(scn["accs"][a].get("norm_var", True)))
+                kept[key_used] = ("stats", fp, a, bool(scn["accs"][a].get("norm_var", True)), fp_sib)
                 dirm[p] = {"kind": "npz", "entries": kept, "last": key_used}
                 # observe the archive with plain numpy
                 try:
@@ -376,7 +396,7 @@ def _run(scn, d, base, res, tr):
                         fail("ARCHIVE_ENTRIES", "entry %r of the archive was altered by save" % kk, phase="save", target=pk)
                         return
             else:
-                dirm[p] = {"kind": pk, "entries": {None: ("stats", fp, a, bool(scn["accs"][a].get("norm_var", True)))},
+                dirm[p] = {"kind": pk, "entries": {None: ("stats", fp, a, bool(scn["accs"][a].get("norm_var", True)), fp_sib)},
                            "last": None}
         elif kind == "load":
             p = op["p"]
@@ -390,7 +410,11 @@ def _run(scn, d, base, res, tr):
                 key = ent["last"]
             else:
                 key = sorted(stats_keys, key=lambda x: str(x))[op.get("pick", 0) % len(stats_keys)]
-            _, fp, a, nv = ent["entries"][key]
+            _, fp, a, nv, fp_sib = ent["entries"][key]
+            if op.get("other_norm_var") and fp_sib is not None:
+                # load with the other norm_var than the saver had: must match the sibling that was fed identically
+                res.probe("loaded_with_other_norm_var")
+                nv, fp = (not nv), fp_sib
             path = os.path.join(base, PATHS[p])
             pk = _kind(p)
             kw = {}
